@@ -76,6 +76,30 @@ def value_check(case):
     targets = list(ts[0])
     if case["explicit_target"]:
         e.set_target_idx(targets)
+    # the grouping itself: every term is the key of a group or a member of exactly one group, a
+    # member is mapped onto its key by a substitution that renames no target index and merges no
+    # indices, and after that substitution key and member differ by a factor only
+    from adcgen.simplify import find_compatible_terms
+    from sympy import Add
+    terms_ = e.terms
+    groups = find_compatible_terms(terms_)
+    seen = []
+    for key_i, members in groups.items():
+        seen.append(key_i)
+        for mem_i, sub in members.items():
+            seen.append(mem_i)
+            if mem_i == key_i:
+                return False, f"find_compatible_terms maps term {key_i} of {e} onto itself"
+            olds = [o for o, _n in sub]
+            real_olds = [o for o in olds if o in terms_[mem_i].idx]
+            if any(o in targets for o in real_olds if dict(sub)[o] is not o):
+                return False, f"find_compatible_terms renames a target index: {sub} for terms {key_i}, {mem_i} of {e}"
+            mapped = terms_[mem_i].sympy.subs(sub)
+            if mapped is S.Zero or isinstance(terms_[key_i].sympy - mapped, Add):
+                return False, (f"find_compatible_terms: term {mem_i} of {e} under {sub} is {mapped}, "
+                               f"not a multiple of term {key_i}")
+    if sorted(seen) != list(range(len(terms_))):
+        return False, f"find_compatible_terms of {e}: terms {sorted(seen)} grouped, expected every term exactly once"
     res = simplify(e.copy())
     # build_term constructs V and f with bra-ket symmetry in either case
     m = Model(orbital_space(1, 1), seed=33, braket={"V": 1, "f": 1, "K": -1})
@@ -171,7 +195,7 @@ CHECKS = {
     "simplify.value": {
         "function": "adcgen.simplify:find_compatible_terms", "cases": value_cases,
         "check": value_check,
-        "bound": "sums of <= 4 terms (<= 3 objects each, incl. alpha-renamed copies) over 3 occ + 3 virt names, real / complex, Einstein or explicit targets: value for all target assignments, term count, assumptions"},
+        "bound": "sums of <= 4 terms (<= 3 objects each, incl. alpha-renamed copies) over 3 occ + 3 virt names, real / complex, Einstein or explicit targets: value for all target assignments, term count, assumptions; structure of the grouping returned by find_compatible_terms (partition, substitutions keep target indices, members are multiples of their key)"},
     "simplify.merges": {
         "function": "adcgen.simplify:find_compatible_terms", "cases": merge_cases,
         "check": merge_check,
